@@ -12,15 +12,26 @@
                       parameters of the generated definition; the theorem substitutes what the
                       model constructor k_xxx pre-computes and speaks about the closure of the
                       object k_xxx returns.
-   TRANSL_<Func>_ctor : a (loop-free) constructor: the generated function, which returns None
+   TRANSL_<Func>_ctor : a constructor: the generated function, which returns None
                       where Go returns nil / an error and otherwise (Evaluate, BoundingBox) of the
                       struct it built, is the model's k_xxx object for object (argument checks,
                       pre-computed fields, closure, bounding box); wrapped SDFs are non-nil.
-   Not covered (loops): Union, Array, RotateUnion, the constructors of RotateCopy, Revolve, Slice, the
-   twisted extrusions' constructors, MinMaxDist2, VecSet.Min/Max; those stay tied by the sampled
-   correspondence of C01/C02/C03/C16 only. *)
+   Code with loops (last part of the file).  `for .. range`, `for i := 0; i < n; i++` (nested, with
+   `continue`), `xs[i] = v`, `append`, `make`, Go ints (Z) are translated into fold_left / range_loop /
+   count_loop / list_set over the tuple of variables the body assigns (Num/Loop.v).  Where the
+   slice is concrete (the vertices of a box) the equality is still by computation + case split;
+   where the operand list or the count is arbitrary (Union2D/3D, Array2D/3D, RotateUnion2D/3D,
+   VecSet.Min/Max, mulVertices) it is an induction stated for any loop body that satisfies the
+   specification of one iteration, which the generated body is shown to satisfy by conversion.
+   A slice of SDFs is the list of (Evaluate, BoundingBox) pairs (`pf2`, `pf3`) of its operands.
+   Constructors whose proof involves an induction are stated with obj2_same / obj3_same (same
+   bounding box, pointwise the same distance function) so that no functional extensionality is
+   used.  Union2D/Union3D: nil operands are stripped by the Go code; here all operands are non-nil.
+   Not covered: SetMin/SetMax/SetExtrude (the model's MinK/MaxK/extrusion arguments), Center2D,
+   CenterAndScale2D, LineOf2D/3D, Multi2D/3D, Orient3D (compositions of the above), screw.go,
+   poly.go, bezier.go, mesh2.go, text (tied by the sampled correspondence of C04/C17/C18 only). *)
 From Coq Require Import ZArith List Bool.
-From Sdfx Require Import Num.Ops Geo.Vec Geo.Box Geo.Mat Sdf.Union2 Sdf.Shape Generated.SdfExpr Sdf.GenEq.
+From Sdfx Require Import Num.Ops Num.Loop Geo.Vec Geo.Box Geo.Mat Sdf.Union2 Sdf.Shape Generated.SdfExpr Sdf.GenEq.
 Import OpsNotations ListNotations.
 Local Open Scope ops_scope.
 
@@ -791,3 +802,178 @@ Theorem TRANSL_Loft3D_ctor : forall (O : Ops),
     option_map obj3_of (sdf_Loft3D (ev2 s0) (bb2 s0) (ev2 s1) (bb2 s1) height round) = k_loft s0 s1 height round.
 Proof. exact (@Loft3D_ctor). Qed.
 Print Assumptions TRANSL_Loft3D_ctor.
+
+(* ================================================================ code with loops *)
+
+Theorem TRANSL_v2_VecSet_Min : forall (O : Ops),
+    forall l : list (V2 O), v2_VecSet_Min l = v2set_min l.
+Proof. exact (@v2_VecSet_Min_eq). Qed.
+Print Assumptions TRANSL_v2_VecSet_Min.
+
+Theorem TRANSL_v2_VecSet_Max : forall (O : Ops),
+    forall l : list (V2 O), v2_VecSet_Max l = v2set_max l.
+Proof. exact (@v2_VecSet_Max_eq). Qed.
+Print Assumptions TRANSL_v2_VecSet_Max.
+
+Theorem TRANSL_v3_VecSet_Min : forall (O : Ops),
+    forall l : list (V3 O), v3_VecSet_Min l = v3set_min l.
+Proof. exact (@v3_VecSet_Min_eq). Qed.
+Print Assumptions TRANSL_v3_VecSet_Min.
+
+Theorem TRANSL_v3_VecSet_Max : forall (O : Ops),
+    forall l : list (V3 O), v3_VecSet_Max l = v3set_max l.
+Proof. exact (@v3_VecSet_Max_eq). Qed.
+Print Assumptions TRANSL_v3_VecSet_Max.
+
+Theorem TRANSL_mulVertices2 : forall (O : Ops),
+    forall (v : list (V2 O)) (a : list (T O)), sdf_mulVertices2 v a = map (m33_mulposition a) v.
+Proof. exact (@mulVertices2_eq). Qed.
+Print Assumptions TRANSL_mulVertices2.
+
+Theorem TRANSL_mulVertices3 : forall (O : Ops),
+    forall (v : list (V3 O)) (a : list (T O)), sdf_mulVertices3 v a = map (m44_mulposition a) v.
+Proof. exact (@mulVertices3_eq). Qed.
+Print Assumptions TRANSL_mulVertices3.
+
+(* Box2/Box3.MinMaxDist2: the vertex loop and the side / face / edge cases (C16) *)
+Theorem TRANSL_Box2_MinMaxDist2 : forall (O : Ops),
+    forall (a : Box2 O) (p : V2 O), sdf_Box2_MinMaxDist2 a p = box2_minmax a p.
+Proof. exact (@Box2_MinMaxDist2_eq). Qed.
+Print Assumptions TRANSL_Box2_MinMaxDist2.
+
+Theorem TRANSL_Box3_MinMaxDist2 : forall (O : Ops),
+    forall (a : Box3 O) (p : V3 O), sdf_Box3_MinMaxDist2 a p = box3_minmax a p.
+Proof. exact (@Box3_MinMaxDist2_eq). Qed.
+Print Assumptions TRANSL_Box3_MinMaxDist2.
+
+(* UnionSDF2.EvaluateSlow / Evaluate (box-pruned; C16), for every operand list and blend *)
+Theorem TRANSL_UnionSlow2 : forall (O : Ops),
+    forall (minf : T O -> T O -> T O) (l : list (Obj2 O)) (p : V2 O),
+    sdf_UnionSDF2_EvaluateSlow (map pf2 l) minf p =
+    evaluate_slow minf (map (fun x => (box2_minmax (bb2 x) p, ev2 x p)) l).
+Proof. exact (@UnionSlow2_eq). Qed.
+Print Assumptions TRANSL_UnionSlow2.
+
+Theorem TRANSL_Union2_eval : forall (O : Ops),
+    forall mk (l : list (Obj2 O)) (p : V2 O), (0 < length l)%nat ->
+    sdf_UnionSDF2_Evaluate (map pf2 l) (min_apply mk) (min_is_blend mk) p =
+    evaluate (min_is_blend mk) (min_apply mk) (map (fun x => (box2_minmax (bb2 x) p, ev2 x p)) l).
+Proof. exact (@Union2_eval_eq). Qed.
+Print Assumptions TRANSL_Union2_eval.
+
+Theorem TRANSL_Union2 : forall (O : Ops),
+    forall mk (l : list (Obj2 O)) o p, (2 <= length l)%nat -> k_union2 mk l = Some o ->
+    sdf_UnionSDF2_Evaluate (map pf2 l) (min_apply mk) (min_is_blend mk) p = ev2 o p.
+Proof. exact (@Union2_eq). Qed.
+Print Assumptions TRANSL_Union2.
+
+Theorem TRANSL_Union3 : forall (O : Ops),
+    forall mk (l : list (Obj3 O)) o p, (2 <= length l)%nat -> k_union3 mk l = Some o ->
+    sdf_UnionSDF3_Evaluate (map pf3 l) (min_apply mk) p = ev3 o p.
+Proof. exact (@Union3_eq). Qed.
+Print Assumptions TRANSL_Union3.
+
+Theorem TRANSL_Union2D_ctor : forall (O : Ops),
+    forall l : list (Obj2 O),
+    obj2_same (option_map obj2_of (sdf_Union2D (map pf2 l))) (k_union2 MinDef l).
+Proof. exact (@Union2D_ctor). Qed.
+Print Assumptions TRANSL_Union2D_ctor.
+
+Theorem TRANSL_Union3D_ctor : forall (O : Ops),
+    forall l : list (Obj3 O),
+    obj3_same (option_map obj3_of (sdf_Union3D (map pf3 l))) (k_union3 MinDef l).
+Proof. exact (@Union3D_ctor). Qed.
+Print Assumptions TRANSL_Union3D_ctor.
+
+(* Array2D / Array3D: nested counting loops; num is the integer vector (nx, ny[, nz]) *)
+Theorem TRANSL_Array2 : forall (O : Ops),
+    forall mk (s : Obj2 O) nx ny step o p, k_array2 mk s nx ny step = Some o ->
+    sdf_ArraySDF2_Evaluate (ev2 s) (nx, ny) step (min_apply mk) p = ev2 o p.
+Proof. exact (@Array2_eq). Qed.
+Print Assumptions TRANSL_Array2.
+
+Theorem TRANSL_Array3 : forall (O : Ops),
+    forall mk (s : Obj3 O) nx ny nz step o p, k_array3 mk s nx ny nz step = Some o ->
+    sdf_ArraySDF3_Evaluate (ev3 s) (nx, ny, nz) step (min_apply mk) p = ev3 o p.
+Proof. exact (@Array3_eq). Qed.
+Print Assumptions TRANSL_Array3.
+
+Theorem TRANSL_Array2D_ctor : forall (O : Ops),
+    forall (s : Obj2 O) nx ny step,
+    option_map obj2_of (sdf_Array2D (ev2 s) (bb2 s) (nx, ny) step) = k_array2 MinDef s nx ny step.
+Proof. exact (@Array2D_ctor). Qed.
+Print Assumptions TRANSL_Array2D_ctor.
+
+Theorem TRANSL_Array3D_ctor : forall (O : Ops),
+    forall (s : Obj3 O) nx ny nz step,
+    option_map obj3_of (sdf_Array3D (ev3 s) (bb3 s) (nx, ny, nz) step) = k_array3 MinDef s nx ny nz step.
+Proof. exact (@Array3D_ctor). Qed.
+Print Assumptions TRANSL_Array3D_ctor.
+
+(* RotateUnion2D / 3D: the evaluation loop (rot = rot * step) and the bounding-box loop *)
+Theorem TRANSL_RotateUnion2 : forall (O : Ops),
+    forall mk (s : Obj2 O) num step o p, k_rotateunion2 mk s num step = Some o ->
+    sdf_RotateUnionSDF2_Evaluate (ev2 s) num (m33_inverse step) (min_apply mk) p = ev2 o p.
+Proof. exact (@RotateUnion2_eq). Qed.
+Print Assumptions TRANSL_RotateUnion2.
+
+Theorem TRANSL_RotateUnion3 : forall (O : Ops),
+    forall mk (s : Obj3 O) num step o p, k_rotateunion3 mk s num step = Some o ->
+    sdf_RotateUnionSDF3_Evaluate (ev3 s) num (m44_inverse step) (min_apply mk) p = ev3 o p.
+Proof. exact (@RotateUnion3_eq). Qed.
+Print Assumptions TRANSL_RotateUnion3.
+
+Theorem TRANSL_RotateUnion2D_ctor : forall (O : Ops),
+    forall (s : Obj2 O) num step,
+    obj2_same (option_map obj2_of (sdf_RotateUnion2D (ev2 s) (bb2 s) num step)) (k_rotateunion2 MinDef s num step).
+Proof. exact (@RotateUnion2D_ctor). Qed.
+Print Assumptions TRANSL_RotateUnion2D_ctor.
+
+Theorem TRANSL_RotateUnion3D_ctor : forall (O : Ops),
+    forall (s : Obj3 O) num step,
+    obj3_same (option_map obj3_of (sdf_RotateUnion3D (ev3 s) (bb3 s) num step)) (k_rotateunion3 MinDef s num step).
+Proof. exact (@RotateUnion3D_ctor). Qed.
+Print Assumptions TRANSL_RotateUnion3D_ctor.
+
+(* constructors whose loops run over the vertices of the operand's bounding box *)
+Theorem TRANSL_RotateCopy2D_ctor : forall (O : Ops),
+    forall (s : Obj2 O) n,
+    option_map obj2_of (sdf_RotateCopy2D (ev2 s) (bb2 s) n) = k_rotatecopy2 s n.
+Proof. exact (@RotateCopy2D_ctor). Qed.
+Print Assumptions TRANSL_RotateCopy2D_ctor.
+
+Theorem TRANSL_RotateCopy3D_ctor : forall (O : Ops),
+    forall (s : Obj3 O) n,
+    option_map obj3_of (sdf_RotateCopy3D (ev3 s) (bb3 s) n) = k_rotatecopy3 s n.
+Proof. exact (@RotateCopy3D_ctor). Qed.
+Print Assumptions TRANSL_RotateCopy3D_ctor.
+
+Theorem TRANSL_Slice2D_ctor : forall (O : Ops),
+    forall (s : Obj3 O) a n,
+    option_map obj2_of (sdf_Slice2D (ev3 s) (bb3 s) a n) = k_slice2 s a n.
+Proof. exact (@Slice2D_ctor). Qed.
+Print Assumptions TRANSL_Slice2D_ctor.
+
+Theorem TRANSL_RevolveTheta3D_ctor : forall (O : Ops),
+    forall (s : Obj2 O) theta,
+    option_map obj3_of (sdf_RevolveTheta3D (ev2 s) (bb2 s) theta) = k_revolve s theta.
+Proof. exact (@RevolveTheta3D_ctor). Qed.
+Print Assumptions TRANSL_RevolveTheta3D_ctor.
+
+Theorem TRANSL_Revolve3D_ctor : forall (O : Ops),
+    forall (s : Obj2 O),
+    option_map obj3_of (sdf_Revolve3D (ev2 s) (bb2 s)) = k_revolve s (o0 O).
+Proof. exact (@Revolve3D_ctor). Qed.
+Print Assumptions TRANSL_Revolve3D_ctor.
+
+Theorem TRANSL_TwistExtrude3D_ctor : forall (O : Ops),
+    forall (s : Obj2 O) height twist,
+    option_map obj3_of (sdf_TwistExtrude3D (ev2 s) (bb2 s) height twist) = k_twistextrude s height twist.
+Proof. exact (@TwistExtrude3D_ctor). Qed.
+Print Assumptions TRANSL_TwistExtrude3D_ctor.
+
+Theorem TRANSL_ScaleTwistExtrude3D_ctor : forall (O : Ops),
+    forall (s : Obj2 O) height twist scale,
+    option_map obj3_of (sdf_ScaleTwistExtrude3D (ev2 s) (bb2 s) height twist scale) = k_scaletwistextrude s height twist scale.
+Proof. exact (@ScaleTwistExtrude3D_ctor). Qed.
+Print Assumptions TRANSL_ScaleTwistExtrude3D_ctor.
